@@ -98,7 +98,7 @@ structure Chain where
   count : Nat
   last : Group
   mirror : List Bytes
-  deriving Repr, Inhabited
+  deriving DecidableEq, Repr, Inhabited
 
 inductive AddRes where
   | ok | exists_ | noParent | preMismatch
@@ -140,11 +140,11 @@ def addGroup (c : Chain) (g : Group) : AddRes × Chain :=
   | r => (r, c)
 
 /-- `groupChain.remove`, the writes, given the predecessor that was read
-    (`generateKey(chain.count - 1)` is uint64 arithmetic; `hkey` reduces mod 2^64). -/
+    (`generateKey(chain.count - 1)` is uint64 arithmetic). -/
 def removeWrites (count : Nat) (g pre : Group) : List Write :=
   [ .del g.id,
     .put curKey (.ref pre.id),
-    .del (hkey (count + u64 - 1)),
+    .del (hkey ((count + u64 - 1) % u64)),
     .put cntKey (.cnt ((count + u64 - 1) % u64)) ]
 
 def removeWritesOf (c : Chain) (g : Group) : List Write :=
@@ -182,7 +182,7 @@ def rmTo (c : Chain) (h : Nat) : Chain := rmLoop h (topHeight c) c
 inductive Boot where
   | alive (c : Chain)
   | dead
-  deriving Repr, Inhabited
+  deriving DecidableEq, Repr, Inhabited
 
 /-- `refreshCache`: when the mirror's row count differs from `count`, re-insert every
     group reachable from `last` through predecessor links (nothing is deleted). -/
@@ -259,7 +259,7 @@ def syncById (d : Store) (id : Bytes) : List (Option Group) :=
 inductive Run where
   | done (c : Chain) (left : Nat)
   | crashed (d : Store) (m : List Bytes)
-  deriving Repr, Inhabited
+  deriving DecidableEq, Repr, Inhabited
 
 def saveB (c : Chain) (g : Group) (k : Nat) : Run :=
   let ws := saveWrites c.count g
